@@ -52,7 +52,7 @@ pub fn zstored(p: &[u8]) -> Vec<u8> {
     o
 }
 
-fn geti(v: &Value, k: &str) -> i64 {
+pub fn geti(v: &Value, k: &str) -> i64 {
     v[k].as_i64().unwrap_or_else(|| panic!("harness: field {} missing in {}", k, v))
 }
 
@@ -141,7 +141,7 @@ fn probes_of(exp: &Value) -> Vec<(u16, u16)> {
         .unwrap_or_default()
 }
 
-fn err_verdict(kind: String) -> Value {
+pub fn err_verdict(kind: String) -> Value {
     json!({"open": kind, "ver": "-", "types": [], "ranges": [], "items": [], "data": [], "data_iter": [],
            "by_type": [], "absent": [], "find": []})
 }
@@ -345,7 +345,7 @@ pub fn diff(exp: &Value, act: &Value) -> Vec<String> {
     d
 }
 
-fn rel_loc(loc: &str) -> String {
+pub fn rel_loc(loc: &str) -> String {
     // strip the checkout prefix so that keys are stable across /repo and scratch worktrees
     for marker in ["/datafile/src/", "/common/src/", "/map/src/", "/zlib-minimal/src/"] {
         if let Some(i) = loc.find(marker) {
@@ -385,9 +385,11 @@ struct Replayer {
     n_panic: u64,
     n_writer: u64,
     samples: Vec<Value>,
+    by_field: std::collections::BTreeMap<String, u64>,
+    by_verdict: std::collections::BTreeMap<String, u64>,
 }
 
-fn fnv(b: &[u8]) -> u64 {
+pub fn fnv(b: &[u8]) -> u64 {
     let mut h = 0xcbf29ce484222325u64;
     for &x in b {
         h ^= x as u64;
@@ -411,6 +413,8 @@ impl Replayer {
             n_panic: 0,
             n_writer: 0,
             samples: Vec::new(),
+            by_field: Default::default(),
+            by_verdict: Default::default(),
         }
     }
 
@@ -446,6 +450,13 @@ impl Replayer {
             self.n_doc += 1;
         }
         let exp = &case["exp"];
+        let fam = format!("{}{}", case["c"]["f"].as_str().unwrap_or("?"),
+                          if case["c"]["fix"] == Value::Bool(true) { "+fix" } else { "" });
+        *self.by_field.entry(fam).or_insert(0) += 1;
+        *self.by_verdict.entry(exp["open"].as_str().unwrap_or("?").to_string()).or_insert(0) += 1;
+        for d in exp["data"].as_array().map(|a| a.as_slice()).unwrap_or(&[]) {
+            *self.by_verdict.entry(format!("data:{}", d["r"].as_str().unwrap_or("?"))).or_insert(0) += 1;
+        }
         if exp["open"] == "ok" {
             self.n_accept += 1;
         } else {
@@ -488,7 +499,7 @@ impl Replayer {
         json!({"kind": "summary", "cases": self.n_cases, "distinct_files": self.seen.len(), "wf": self.n_wf,
                "doc_valid": self.n_doc, "spec_accepts": self.n_accept, "spec_rejects": self.n_reject,
                "mismatches": self.n_mismatch, "panics": self.n_panic, "writer_mismatch": self.n_writer,
-               "samples": self.samples})
+               "by_field": self.by_field, "by_verdict": self.by_verdict, "samples": self.samples})
     }
 }
 
@@ -540,14 +551,23 @@ fn cmd_replay_one(workdir: &str, file: &str) {
         return;
     }
     if case["bytes"].is_array() {
-        // a direction-B event: re-run the observation on the stored bytes
+        // a direction-B event: observe again and emit the event for DatafileTrace.tla
         let bytes = bytes_of(&case["bytes"]);
-        std::fs::write(&rp.path, &bytes).unwrap();
-        let path = rp.path.clone();
-        let o1 = run_guarded(|| observe_file(&path, &[]));
-        let o2 = run_guarded(|| observe_raw(&bytes, &[]));
-        writeln!(out, "{}", json!({"kind": "observed", "file": {"act": o1.act, "panic": o1.panic},
-                                   "raw": {"act": o2.act, "panic": o2.panic}})).unwrap();
+        let probes: Vec<(u16, u16)> = case["probes"]
+            .as_array()
+            .map(|a| a.iter().map(|p| (p[0].as_i64().unwrap() as u16, p[1].as_i64().unwrap() as u16)).collect())
+            .unwrap_or_default();
+        let ev = drive::make_event(
+            &rp.path,
+            1,
+            case["mut"].as_str().unwrap_or(""),
+            case["wf"] == Value::Bool(true),
+            case["stored"].clone(),
+            case["z"].clone(),
+            &bytes,
+            &probes,
+        );
+        writeln!(out, "{}", json!({"kind": "event", "event": ev})).unwrap();
         let _ = std::fs::remove_file(&rp.path);
         return;
     }
